@@ -63,7 +63,7 @@ def r1_id_and_wire_agree(ctx):
         for l in lraw:
             if l.kind == "call" and re.search(r"^serde_json::(ser::)?to_string$", l.detail["callee"] or ""):
                 la = tr.origins(b, l.detail["args"][0])
-                if la and all(x.kind == "param" and "Request<" in (x.detail.get("ty") or "") or (x.kind == "param" and x.detail.get("name") == "request") for x in la):
+                if la and all(x.kind == "param" and "Request<" in (x.detail.get("ty") or "") for x in la):
                     okr = True
         R.check(okr, "C03.R1", "call:wire-is-same-request", "the text sent is the serialisation of that same request", "the text sent is not serde_json::to_string(&request): %s" % [flow.leaf_str(l) for l in lraw], "%s:%d" % (b.file, st["sp"][0]))
     for bi, st in _aggs(b, "::SubscriptionMessage"):
